@@ -731,6 +731,12 @@ func (k *c18) inRange(n int) {
 			k.count("c18:in-range:lhs-budget") // only the range allocates
 			continue
 		}
+		if rr.isErr("budget") && !l.isErr("budget") {
+			// a descending range has a negative size in the VM's accounting (the known range-size finding), so
+			// filter(.., {# in hi..lo}) can stay under a budget that the comparison form exceeds; allocation is not an observable here
+			k.count("c18:in-range:rhs-budget-only")
+			continue
+		}
 		switch {
 		case l.String() != rr.String():
 			k.violate(key, "membership of "+xsrc+" in an integer range differs from the two-sided comparison", lhs, rhs, m, env, rr.String(), l.String())
